@@ -44,6 +44,9 @@ Definition hinfo (m : N) : minfo :=
   | 30 => mk_info "D" "p_arc2" true false true
   | 33 => mk_info "D" "r_val" false false true    (* the same pair with by-value receivers *)
   | 34 => mk_info "D" "p_val2" true false true
+  (* like p_rc2, but the body holds a second Rc to the helper across the required call: from_delegator clones the mock out
+     of the shared helper, the original is released when the body drops its pointer - before the body returns either way *)
+  | 35 => mk_info "D" "p_rc3" true false true
   | _ => mk_info "?" "?" false false true
   end.
 
@@ -219,7 +222,7 @@ Definition d_alias (m : N) : N :=
 Inductive recv := RRef | RMut | RVal | RRcSole | RRcKept | RPin.
 Definition recv_of (m : N) : recv :=
   match m with
-  | 15 | 20 => RMut | 16 | 33 | 34 => RVal | 17 | 18 | 23 | 24 | 27 | 28 | 29 | 30 => RRcSole | 21 | 22 | 25 | 26 | 31 | 32 => RRcKept | 19 => RPin | _ => RRef
+  | 15 | 20 => RMut | 16 | 33 | 34 => RVal | 17 | 18 | 23 | 24 | 27 | 28 | 29 | 30 | 35 => RRcSole | 21 | 22 | 25 | 26 | 31 | 32 => RRcKept | 19 => RPin | _ => RRef
   end.
 
 (* the required calls the common default body makes for argument a: a mod 4 calls, r0/r1 alternating *)
@@ -227,7 +230,7 @@ Definition body_calls (a : N) : list (N * N) :=
   map (fun j => ((if Nat.even j then 10 else 11), (a + N.of_nat j) mod 8)) (seq 0 (N.to_nat (a mod 4))).
 (* p_rc2's own body: exactly one call, of the Rc-receiver required method, with the same argument *)
 Definition body_calls_of (m a : N) : list (N * N) :=
-  if m =? 24 then [(23, a)] else if m =? 30 then [(29, a)] else if m =? 34 then [(33, a)] else body_calls a.
+  if (m =? 24) || (m =? 35) then [(23, a)] else if m =? 30 then [(29, a)] else if m =? 34 then [(33, a)] else body_calls a.
 
 (* a default body: the calls [cs] one after the other through [step]; the first panic ends it *)
 Fixpoint body_loop (step : state -> N -> N -> N -> state * N * (string + string) * N) (finish : list string -> string)
